@@ -19,11 +19,14 @@ func TestMatrix(t *testing.T) {
 	for op := opUnreachable; op <= opAtomicRMWOOB; op++ {
 		terms = append(terms, []int{op})
 	}
-	for k := 0; k < nPanicKinds; k++ {
-		terms = append(terms, []int{opHostPanic + k})
-	}
-	for _, op := range []int{opProcExit, opCloseCont, opCloseTrap, opCloseNoRet} {
-		terms = append(terms, []int{op, 0}, []int{op, 3})
+	for _, via := range []int{0, opViaTable} { // host functions called directly and through the table
+		for k := 0; k < nPanicKinds; k++ {
+			terms = append(terms, []int{via + opHostPanic + k})
+		}
+		for _, op := range []int{opProcExit, opCloseCont, opCloseTrap, opCloseNoRet} {
+			terms = append(terms, []int{via + op, 0}, []int{via + op, 3})
+		}
+		terms = append(terms, []int{via + opPeek})
 	}
 	shapes := [][]int{
 		{},
@@ -36,6 +39,8 @@ func TestMatrix(t *testing.T) {
 		{opCallback | 0<<1 | 1}, // ... swallowed
 		{opNestPeer, opCallback | 1<<1, opNestLocal, opCallback | 0<<1 | 1},              // guest>guest>host>guest>guest>host>guest
 		{opCallback | 1<<1 | 1, opCallback | 0<<1, opCallback | 3<<1, opCallback | 1<<1}, // depth 4 through the host
+		{opCallback | opCbTable | 3<<1},                                                  // the callback host function reached through the table
+		{opNestPeer, opCallback | opCbTable | 1<<1 | 1, opNestIndirect},                  // ... from a function imported by another instance
 	}
 	n := 0
 	run := func(c *Case, labels ...string) {
@@ -99,9 +104,9 @@ func replaceSelf(ops []int) []int {
 	r := append([]int{}, ops...)
 	for i, op := range r {
 		if byte(op)&opCbMask == opCallback && (op>>1)&3 == 3 {
-			r[i] = opCallback | op&1
+			r[i] = opCallback | op&(1|opCbTable)
 		}
-		if trapText[byte(op)] != "" || op == opProcExit || op == opCloseCont || op == opCloseTrap || op == opCloseNoRet {
+		if o := op &^ opViaTable; trapText[byte(op)] != "" || o == opProcExit || o == opCloseCont || o == opCloseTrap || o == opCloseNoRet {
 			break // what follows a terminal operation is its argument
 		}
 	}
